@@ -16,6 +16,8 @@ CLAIMED = {
          "—"),
  "C02": ("tables_are_forms (generated digit tables and long-form overrides are the specification's forms for every flag set), format_canonical, parse_format and valid for every n < 2^64, every flag value, every limit/rule, round trip along every fmt verb (verb table generated)",
          "MarshalText/String delegation through the global Formatter variable (one-line methods, exercised by the harness)"),
+ "C03": ("the published BNF as an independent predicate; shape_iff / accepts_iff (acceptance ⇔ non-empty ∧ limit ∧ prefix rule ∧ BNF ∧ numbers < 2^64), unique decomposition, fields, reproduce (format ∘ parse = id byte for byte), overflow_typed, invalid_iff, error classes, never_panic, entry points and their generated constants, valid_iff_roundtrip under the (forced, explicit) length hypothesis",
+         "Go regexp (modelled by the scanner; exhaustive to length 6/8 over the alphabet in the harness); the zero result next to an error (asserted by the harness on every parse op)"),
  "C06": ("compare_is_spec: the comparator equals an independent statement of SemVer §11 on all versions outside the excluded region (validity not needed); the excluded region is exactly the property's; the specification's example chain in both spec and model; entry points = parse then compare",
          "Go regexp used by Valid/isNumeric (modelled by predicates, validated by correspondence)"),
  "C10": ("accepts_iff: acceptance ⇔ limit ∧ (empty ∧ rule) ∨ upper-cased text = M^k ++ three group forms, value = sum mod 2^64 (no mod needed below 2^54 bytes); case_invariant; valid_iff_parse; error classes; no panic",
@@ -24,6 +26,8 @@ CLAIMED = {
          "—"),
  "C14": ("range, reflexivity, antisymmetry, build-irrelevance, equal-core-pre ⇒ 0, latest_choice for ALL versions (arbitrary field bytes), string helpers = parse-then-compare with the documented error precedence, Next* plain release strictly above, panic ⇔ 2^64−1",
          "transitivity is not claimed by the property (and fails inside C06's excluded region: a01 < a0x < a1, a01 = a1)"),
+ "C20": ("decision logic of the six helpers over scripted behaviours: per-case reported ⇔ ¬satisfied outside the K1 shape, list-level iff (reports_iff_partial), other direction ignored, FailNow ⇔ type lacks interface ∧ cases ≠ [], a verdict per case; the full statement is proved FALSE (errorMatch_silent / full_statement_is_false) — that is known finding K1",
+         "testify/assert behaviour and reflection (castToFunc, helperNew) — modelled, validated by correspondence on generated scripted types; custom TypeHelper implementations are not modelled (nil helper only)"),
  "C15": ("construction error ⇔ both bounds ∧ from after to; membership ⇔ inclusive day-number interval for the five filter shapes",
          "caller-variable mutation after construction (copy semantics; harness mutates the variables on every filter op)"),
 }
